@@ -1,0 +1,6 @@
+//go:build !verif
+
+package kgo
+
+// vtrace is a no-op without the `verif` build tag.
+func vtrace(string, *Record, int64, int64, int64) {}
